@@ -255,8 +255,33 @@ def job_times(nfr, T):
         cad = CAD.Cadence(frames, t_slew=slew, t_overwrite=True)
         return cad.slew_times, [fr.t_start for fr in frames], natural, cons, cad.obs_range, cad.tchans
     with cad_patches():
-        leaf = core.run_single(run, pre)
+        leaves = core.explore(run, pre, cap=16)
+    recs_all = []
+    for li, leaf in enumerate(leaves):
+        recs_all += _times_leaf(leaf, li, len(leaves), nfr, Ts, T, Fc, dt, taus, slew, Ds, pre, tag)
+    r, _ = core.check(pre + [z3.Not(z3.Or(*[l.cond() for l in leaves]))], timeout_ms=30000)
+    recs_all.append(q(tag + ':split-complete', r, leaves=len(leaves)))
+    return recs_all
+
+
+def _times_leaf(leaf, li, nleaves, nfr, Ts, T, Fc, dt, taus, slew, Ds, pre, tag):
+    recs = []
+    tag = tag if nleaves == 1 else f"{tag}:leaf{li}"
+    pre = pre + leaf.pc
+    pl = dict(fn='times', nfr=nfr, T=list(Ts))
+    if leaf.kind == 'exc':
+        r, m = core.check(pre + leaf.side, timeout_ms=30000)
+        recs.append(q(tag + ':noexc', r, detail=repr(leaf.value)))
+        if r == 'sat':
+            recs.append(cex('C16:times:raise', f'cadence time bookkeeping raised {leaf.value!r}', dict(pl, tau0=core.model_float(m, taus[0])), name=tag + ':noexc'))
+        return recs
     sl, starts, natural, cons, obs_range, tch = leaf.value
+    if obs_range is None or tch is None:
+        r, m = core.check(pre + leaf.side, timeout_ms=30000)
+        recs.append(q(tag + ':aggregates-defined', r, detail=f"obs_range={obs_range!r} tchans={tch!r}"))
+        if r == 'sat':
+            recs.append(cex('C16:consolidate', f'obs_range / tchans of a non-empty cadence is None (first start time {core.model_float(m, taus[0])!r})', dict(pl, tau0=core.model_float(m, taus[0])), name=tag + ':aggregates-defined'))
+        return recs
     dtv = lift(dt)
     off = [sum(Ts[:m]) for m in range(nfr + 1)]
     dis = [lift(s) != slew.t for s in sl]
@@ -265,7 +290,6 @@ def job_times(nfr, T):
     dis.append(lift(starts[0]) != taus[0].t)
     for m in range(1, nfr):
         dis.append(lift(starts[m]) != taus[0].t + off[m] * dtv + m * slew.t)
-    pl = dict(fn='times', nfr=nfr, T=list(Ts))
     r, _ = core.check(pre + leaf.side + [z3.Or(*dis)], timeout_ms=60000)
     recs.append(q(tag + ':overwrite->slew', r))
     if r == 'sat':
@@ -361,7 +385,7 @@ def replay_times(p):
     nfr = p['nfr']
     Ts = list(p['T']) if isinstance(p['T'], (list, tuple)) else [p['T']] * nfr
     off = [sum(Ts[:m]) for m in range(nfr + 1)]
-    t0s = [100.0 * m * m for m in range(nfr)]
+    t0s = [p.get('tau0', 0.0) + 100.0 * m * m for m in range(nfr)]
     frames = [stg.Frame(fchans=3, tchans=Ts[m], df=2.0, dt=4.0, fch1=4096.0, t_start=t0s[m], seed=m) for m in range(nfr)]
     for m, fr in enumerate(frames):
         fr.data = np.full((Ts[m], 3), float(m))
@@ -375,7 +399,7 @@ def replay_times(p):
         msgs.append('consolidated data')
     if not np.allclose(cons.ts, np.concatenate([np.arange(Ts[m]) * 4.0 + t0s[m] for m in range(nfr)])):
         msgs.append('consolidated ts')
-    if not np.isclose(cad0.obs_range, frames[-1].t_start + 4.0 * Ts[-1] - frames[0].t_start) or cad0.tchans != off[nfr]:
+    if cad0.obs_range is None or not np.isclose(cad0.obs_range, frames[-1].t_start + 4.0 * Ts[-1] - frames[0].t_start) or cad0.tchans != off[nfr]:
         msgs.append(f'obs_range {cad0.obs_range} / tchans {cad0.tchans}')
     # frames whose start time is assigned after construction (as overwrite_times itself does)
     late = [stg.Frame(fchans=3, tchans=Ts[m], df=2.0, dt=4.0, fch1=4096.0, t_start=5.0, seed=m) for m in range(nfr)]
@@ -389,7 +413,7 @@ def replay_times(p):
     want = [frames[0].t_start + 4.0 * off[m] + 7.5 * m for m in range(nfr)]
     if not np.allclose([fr.t_start for fr in frames], want, rtol=1e-12):
         msgs.append(f'start times after overwrite {[fr.t_start for fr in frames]}, expected {want} (frame lengths {Ts})')
-    if not np.isclose(cad.obs_range, want[-1] + 4.0 * Ts[-1] - want[0]):
+    if cad.obs_range is None or not np.isclose(cad.obs_range, want[-1] + 4.0 * Ts[-1] - want[0]):
         msgs.append(f'obs_range after overwrite {cad.obs_range}, expected {want[-1] + 4.0 * Ts[-1] - want[0]}')
     return bool(msgs), '; '.join(msgs) or 'ok'
 
